@@ -413,6 +413,21 @@ pub fn cache_async(attr: TokenStream, item: TokenStream) -> TokenStream {
         });
     };
 
+    // verification hook (feature "verif" only): expose the storage
+    let verif_probe = if cfg!(feature = "verif") {
+        quote! {
+            static VERIF_PROBE_REGISTERED: once_cell::sync::OnceCell<()> = once_cell::sync::OnceCell::new();
+            VERIF_PROBE_REGISTERED.get_or_init(|| {
+                cachelito_core::verif::register_probe(stringify!(#cache_ident), |cmd| {
+                    let mut o = #order_ident.lock();
+                    cachelito_core::verif::probe_async(&*#cache_ident, &mut o, cmd);
+                });
+            });
+        }
+    } else {
+        quote! {}
+    };
+
     // Generate final expanded code
     let expanded = quote! {
         #vis #sig {
@@ -434,6 +449,7 @@ pub fn cache_async(attr: TokenStream, item: TokenStream) -> TokenStream {
 
             #invalidation_registration
             #invalidation_callback_registration
+            #verif_probe
 
             #cache_logic
         }
